@@ -19,7 +19,7 @@ DOC = "<metadata>one\r\n\u00e9</metadata>\r".encode("utf-8")
 DOC2 = b"<metadata>two, a longer one</metadata>\n"
 ARGERR = {"ValueError", "TypeError", "UnsupportedAlgorithm"}
 PIDS = ("held", "new", "unknown", "rotten", "@at", "@new")
-FORMATS = (NS, "fmt2")
+FORMATS = (NS, "fmt2", "fmt2 ", " fmt2", "fmt2\n", "\tfmt2")
 
 
 def cls(e):
@@ -123,6 +123,25 @@ def cases():
         out.append(("getchecksum", {"pid": pid, "algo": "md5", "_sep": True}))
         out.append(("storemetadata", {"pid": pid, "path": "doc2", "formatid": "@fmt", "_sep": True}))
         out.append(("deleteobject", {"pid": pid, "_sep": True}))
+    # option values reach the API exactly as given: surrounding blanks / a trailing newline are part of the value (the API
+    # rejects them in identifiers, checksums and algorithm names and treats a padded format id as another format)
+    md5ok = ("md5", md5)
+    pads = (lambda v: v + " ", lambda v: " " + v, lambda v: v + "\n", lambda v: "\t" + v)
+    padded = [("storeobject", {"pid": "new", "path": "obj2", "algo": "sha224", "checksum": md5ok[1], "checksum_algo": "md5"}),
+              ("getchecksum", {"pid": "held", "algo": "md5"}), ("retrieveobject", {"pid": "held"}),
+              ("deleteobject", {"pid": "held"}), ("storemetadata", {"pid": "held", "path": "doc2", "formatid": "fmt2"}),
+              ("retrievemetadata", {"pid": "held", "formatid": "fmt2"}), ("deletemetadata", {"pid": "held", "formatid": "fmt2"})]
+    for verb, o in padded:
+        for k in o:
+            if k == "path":
+                continue
+            for sep in (False, True):
+                for f in pads:
+                    o2 = dict(o)
+                    o2[k] = f(o[k])
+                    if sep:
+                        o2["_sep"] = True
+                    out.append((verb, o2))
     out.append(("storeobject", {"pid": "@new", "path": "obj2", "_sep": True}))
     out.append(("storeobject", {"pid": None, "path": "obj2"}))
     out.append(("storeobject", {"pid": "new", "path": None}))
